@@ -116,6 +116,13 @@ def check(repo):
                         seen_filler.add(attr)
                         if lf.node is not None:
                             filler_nodes.add(lf.node)
+                        elif ":init" in lf.via:
+                            # fillers produced by the comprehension the container is initialised with: the statement that binds it
+                            cname = lf.via.split(":")[0].split("[")[0]
+                            for n2 in ft.cfg.nodes:
+                                if n2.kind == "stmt" and isinstance(n2.stmt, ast.Assign) and any(isinstance(t2, ast.Name) and t2.id == cname for t2 in n2.stmt.targets) and \
+                                        isinstance(n2.stmt.value, (ast.ListComp, ast.DictComp, ast.SetComp, ast.GeneratorExp)):
+                                    filler_nodes.add(n2.id)
                     dict_leaf = kind == "dict" or any(b in lf.via for b in ("create_hash_table", "build_from_list", "create_dictionary_from_list"))
                     if lf.key is not None and dict_leaf and not _int_valued(lf.key):
                         p = L.length(lf.key)
@@ -193,6 +200,24 @@ def check(repo):
                 r5.instance({"scheme": s.name, "level_count": show(tt, maxdepth=5)})
 
     r1.require(n_cont >= 14, schemes[0].method("_Enc"), "containers floor", "only %d containers analysed (expected >= 14)" % n_cont)
+    # Pi2Lev's array is sized before it is filled: a slot that is reserved but never written stays None (an entry of another "length"),
+    # a slot that is written but not reserved is missing.  The agreement of reservation and case split is R1.3's; its findings count here.
+    r6 = Rule("R5.6", "Pi2Lev reserves exactly the array slots that the medium / large cases fill")
+    rules.append(r6)
+    from . import c01 as _c01
+    for s_ in schemes:
+        if s_.name != "CJJ14.Pi2Lev":
+            continue
+        tmp = Rule("R1.3", "")
+        _c01._check_pi2lev_split(repo, tmp, s_)
+        r6.obligations += tmp.obligations
+        r6.discharged += tmp.discharged
+        for f in tmp.findings:
+            if "reserv" in f.construct or "reserv" in f.message:
+                f.rule = "R5.6"
+                r6.findings.append(f)
+            else:
+                r6.discharged += 1
     _check_partition_pads(repo, r4)
     for s_ in schemes:
         if s_.name == "DP17.Pi":
@@ -206,8 +231,9 @@ def _check_fill_counts(repo, r2, s, enc, ft, dbp, filler_nodes):
     for nid in sorted(filler_nodes):
         n = ft.cfg.nodes[nid]
         st = n.stmt
-        comps = [g for g in ast.walk(st) if isinstance(g, (ast.GeneratorExp, ast.ListComp)) and any(
-            isinstance(c, ast.Call) and dotted(c.func) == "os.urandom" for c in ast.walk(g.elt))]
+        comps = [g for g in ast.walk(st) if isinstance(g, (ast.GeneratorExp, ast.ListComp, ast.SetComp, ast.DictComp)) and any(
+            isinstance(c, ast.Call) and dotted(c.func) == "os.urandom"
+            for part in ([g.key, g.value] if isinstance(g, ast.DictComp) else [g.elt]) for c in ast.walk(part))]
         iters = [(g.generators[0].iter, "comprehension") for g in comps]
         if not iters:
             for a in ancestors(st):
